@@ -149,18 +149,27 @@ def build(modules: Sequence[str]) -> Tuple[bool, str]:
 
 
 def theorem_names(module: str) -> Tuple[List[str], int]:
-    """Names of the theorems of a Props module and the number of `example`s in it."""
+    """Fully qualified names of the theorems of a Props module and the number of `example`s in it."""
     path = LEAN / (module.replace(".", "/") + ".lean")
     src = strip_comments(path.read_text())
-    names = re.findall(r"^\s*theorem\s+([A-Za-z0-9_.']+)", src, re.M)
-    examples = len(re.findall(r"^\s*example\b", src, re.M))
+    names: List[str] = []
+    stack: List[str] = []
+    examples = 0
+    for line in src.splitlines():
+        m = re.match(r"^\s*namespace\s+(\S+)", line)
+        if m:
+            stack.append(m.group(1))
+            continue
+        m = re.match(r"^\s*end\s+(\S+)", line)
+        if m and stack and stack[-1] == m.group(1):
+            stack.pop()
+            continue
+        m = re.match(r"^\s*(?:@\[[^\]]*\]\s*)?(?:private\s+|protected\s+)?theorem\s+([A-Za-z0-9_.']+)", line)
+        if m:
+            names.append(".".join(stack + [m.group(1)]))
+        if re.match(r"^\s*example\b", line):
+            examples += 1
     return names, examples
-
-
-def namespace_of(module: str) -> Optional[str]:
-    path = LEAN / (module.replace(".", "/") + ".lean")
-    m = re.search(r"^namespace\s+(\S+)", strip_comments(path.read_text()), re.M)
-    return m.group(1) if m else None
 
 
 def audit(module: str) -> Dict[str, Any]:
@@ -174,7 +183,7 @@ def audit(module: str) -> Dict[str, Any]:
             res["ok"] = False
             res["problems"].append(f"{f.relative_to(LEAN)}: forbidden construct `{hit.group(0).strip()}`")
     names, examples = theorem_names(module)
-    ns = namespace_of(module)
+    ns = None
     res["theorems"] = names
     res["examples"] = examples
     adir = LEAN / ".audit"
